@@ -11,8 +11,9 @@
      their mkdir / open(O_CREAT|O_APPEND) / append steps, from any tree with a well-shaped index area: no step fails,
      every operation returns Ok, and the final buckets and lookups are those of running the operations serially in the
      order of their append steps (a permutation of the operations).  No successful write is lost or spliced.
-   * C07_conc_writes_serializable — UNBOUNDED serialisability of concurrent keyed writers: any number of one-shot
-     writers (same key, different keys, identical or different content, any algorithms), any interleaving of all their
+   * C07_conc_writes_serializable — UNBOUNDED serialisability of concurrent keyed writers AND removers: any number of
+     one-shot writers (same key, different keys, identical or different content, any algorithms) and tombstone removers
+     (the index insert of a removal), any interleaving of all their
      steps (mkdir tmp, O_EXCL temp file, data write, mkdir content, rename, mkdir index, open, append), from any tree in
      the cache invariant: no step fails; every writer returns the digest address of its data; every written content is
      completely stored under its address; the invariant is kept; and the index is exactly the one of the serial run of the
@@ -68,8 +69,8 @@ Proof. exact (conc_index_serializable hash hs f0 pl' f' rs). Qed.
 Theorem C07_conc_writes_serializable (HL : HashLen hash) ws f0 pl' f' rs :
   CacheInv f0 -> coll_free hash ws -> Forall (fun x => wf_rec hash (hop_rec (x_hop hash x))) ws ->
   preach (map (wprog hash) ws, f0) (pl', f') -> results pl' = Some rs ->
-  rs = map (fun x => Ok (x_sri hash x)) ws /\
-  (forall x, In x ws -> lookup f' (InCache (x_cp hash x)) = Some (File (ws_data x))) /\
+  rs = map (fun x => Ok (x_res hash x)) ws /\
+  (forall x, In x ws -> ws_rm x = false -> lookup f' (InCache (x_cp hash x)) = Some (File (ws_data x))) /\
   CacheInv f' /\
   exists perm, Permutation perm ws /\
     (forall b, bshape b -> bucket_at f' b = bucket_at (fold_left (exec_hop hash) (map (x_hop hash) perm) f0) b) /\
@@ -88,7 +89,9 @@ Theorem C07_observations_monotone hs f0 s1 s2 :
 Proof. exact (observations_monotone hash hs f0 s1 s2). Qed.
 
 (* the thread programs of that theorem are the library's write_sync programs (async write runs identically: C12) *)
-Theorem C07_wprog_is_write x : wprog hash x = write hash Sync (ws_a x) (ws_key x) (ws_data x) (ws_now x).
+Theorem C07_wprog_is_write x :
+  wprog hash x = if ws_rm x then insert hash (ws_key x) wopts0 (ws_now x)
+                 else write hash Sync (ws_a x) (ws_key x) (ws_data x) (ws_now x).
 Proof. reflexivity. Qed.
 
 (* the thread programs of the index theorem are the library's index programs *)
